@@ -1,0 +1,9 @@
+//go:build verif
+
+package gochannel
+
+// VerifRelayInternalPubSub exposes the FanOut's internal GoChannel to the verification harness
+// (to close it underneath a running FanOut: the destination then refuses every Publish).
+func (f *FanOut) VerifRelayInternalPubSub() *GoChannel {
+	return f.internalPubSub
+}
